@@ -738,7 +738,14 @@ where
                 far_trace_case::<T, B>(ctx, rep, case, g, t, bname, beps);
                 return;
             }
-            go!(t, 1.0)
+            // an additive constant of large magnitude on double-precision backends
+            if beps < 1e-10 && T::NAME == "f64" && g.chance(0.4) {
+                let c = g.log_uniform(1e2, 1e8) * if g.bool() { 1.0 } else { -1.0 };
+                rep.count("targets_with_additive_constant");
+                go!(Shifted { inner: t, c }, 1.0)
+            } else {
+                go!(t, 1.0)
+            }
         }
         3 | 4 => {
             let (a, b) = (T::of(g.uniform(0.5, 2.0)), T::of(g.log_uniform(1.0, 30.0)));
